@@ -3,6 +3,7 @@ package verifsim
 import (
 	"fmt"
 	"io"
+	"time"
 
 	mux "github.com/cbeuw/Cloak/internal/multiplex"
 	"github.com/cbeuw/Cloak/internal/simsync"
@@ -76,6 +77,8 @@ type c03End struct {
 	inCall   string
 	total    int
 	gotAll   chan struct{} // closed once n reaches total
+	retAt    time.Duration // virtual time at which the reading ended
+	closedAt time.Duration // virtual time at which this side's Close returned (-1: it has not)
 }
 
 func (e *c03End) progress() {
@@ -114,6 +117,7 @@ func c03Read(c *Ctx, r io.Reader, key uint64, tag uint32, dir, total, bufSize in
 		if err != nil || e.bad != "" {
 			e.err = err
 			e.returned = true
+			e.retAt = c.W.Elapsed()
 			return
 		}
 	}
@@ -130,6 +134,7 @@ func runC03(c *Ctx, scAny any) {
 	states := make([]*c03State, len(sc.Streams))
 	for i, p := range sc.Streams {
 		states[i] = &c03State{plan: p, tag: uint32(i)}
+		states[i].ends[0].closedAt, states[i].ends[1].closedAt = -1, -1
 	}
 	// side: 0 client, 1 server. dirs: client writes dir 0, server writes dir 1.
 	side := func(st *c03State, who int, stream *mux.Stream, alreadyRead int) {
@@ -194,6 +199,7 @@ func runC03(c *Ctx, scAny any) {
 			e.inCall = "Close"
 			stream.Close()
 			e.inCall = ""
+			e.closedAt = c.W.Elapsed()
 			if _, err := stream.Write([]byte{0x55}); err == nil {
 				st.postWrite[who] = "Write succeeded after a local Close"
 			}
@@ -276,6 +282,15 @@ func runC03(c *Ctx, scAny any) {
 			}
 			if e.err != mux.ErrBrokenStream {
 				c.Fail("close-order", "wrong-error", "stream %d, %s: reading ended with %v, want the broken-stream error", st.tag, name, e.err)
+				return
+			}
+			if peer := &st.ends[1-who]; !closes && peer.closedAt >= 0 && e.retAt > peer.closedAt+500*time.Millisecond {
+				// No connection is stalled in these worlds and virtual time only passes when
+				// nothing can run: the end of the stream must reach a waiting reader at the
+				// virtual instant of the Close. A reader released later was released by
+				// something else (the session's inactivity timer closing a session that
+				// looks idle to the closer) - the close itself never told the peer.
+				c.Fail("close-liveness", "eos-late", "stream %d, %s: the peer's Close returned at %v, but the reader waiting on this side was only released at %v with %v (%d of %d bytes read): the close was not announced to the peer", st.tag, name, peer.closedAt, e.retAt, e.err, e.n, theirs)
 				return
 			}
 			if !closes {
